@@ -120,34 +120,40 @@ fn d1_shaped(rng: &mut Rng) -> (usize, usize, Vec<E>) {
     permute(rng, next, 0, sink, &edges)
 }
 
-/// unit-capacity grid, both directions, with the left `a` columns contracted into a super source and
-/// the right `b` columns into a super sink (what inertial flow builds): parallel unit edges merge to > 1
+/// unit-capacity grid, both directions, with a ragged left region contracted into a super source and
+/// a ragged right region into a super sink (what inertial flow builds): an inner cell next to several
+/// contracted cells gets parallel unit edges, which the solvers merge to capacities > 1
 fn grid(rng: &mut Rng, w: usize, h: usize) -> (usize, usize, Vec<E>) {
-    let a = 1 + rng.below((w as u64 / 3).max(1)) as usize;
-    let b = 1 + rng.below((w as u64 / 3).max(1)) as usize;
-    let inner_cols = w - a - b;
-    let id = |x: usize, y: usize| -> usize {
-        if x < a {
-            0
-        } else if x >= w - b {
-            1
-        } else {
-            2 + (x - a) * h + y
+    let a = 1 + rng.below((w as u64 / 4).max(1)) as usize;
+    let b = 1 + rng.below((w as u64 / 4).max(1)) as usize;
+    // role per cell: 0 = source region, 1 = sink region, 2.. = own node
+    let mut role = vec![vec![usize::MAX; h]; w];
+    let mut next = 2usize;
+    for x in 0..w {
+        for y in 0..h {
+            role[x][y] = if x < a || (x == a && rng.chance(1, 2)) {
+                0
+            } else if x >= w - b || (x + 1 == w - b && x > a && rng.chance(1, 2)) {
+                1
+            } else {
+                next += 1;
+                next - 1
+            };
         }
-    };
+    }
     let mut edges: Vec<E> = Vec::new();
     for x in 0..w {
         for y in 0..h {
             // occasionally drop an edge so that the cut is not simply a column
-            if x + 1 < w && !rng.chance(1, 6) {
-                let (p, q) = (id(x, y), id(x + 1, y));
+            if x + 1 < w && !rng.chance(1, 8) {
+                let (p, q) = (role[x][y], role[x + 1][y]);
                 if p != q {
                     edges.push((p, q, 1));
                     edges.push((q, p, 1));
                 }
             }
-            if y + 1 < h && !rng.chance(1, 6) {
-                let (p, q) = (id(x, y), id(x, y + 1));
+            if y + 1 < h && !rng.chance(1, 8) {
+                let (p, q) = (role[x][y], role[x][y + 1]);
                 if p != q {
                     edges.push((p, q, 1));
                     edges.push((q, p, 1));
@@ -158,8 +164,7 @@ fn grid(rng: &mut Rng, w: usize, h: usize) -> (usize, usize, Vec<E>) {
     if edges.is_empty() {
         edges.push((0, 1, 1));
     }
-    let n = (2 + inner_cols * h).max(num_nodes(&edges));
-    let n = n.min(num_nodes(&edges)).max(2);
+    let n = num_nodes(&edges).max(2);
     if rng.chance(1, 2) { permute(rng, n, 0, 1, &edges) } else { (0, 1, edges) }
 }
 
@@ -272,8 +277,8 @@ pub fn generate(rng: &mut Rng, tier: Tier, cases: &mut Vec<Case>) {
         }
     }
     let (n_d1, n_grid, n_multi, n_layered) = match tier {
-        Tier::Quick => (3000, 150, 3000, 1500),
-        Tier::Thorough => (60000, 1500, 60000, 30000),
+        Tier::Quick => (6000, 400, 5000, 4000),
+        Tier::Thorough => (80000, 4000, 80000, 50000),
     };
     // (ii) D1-shaped
     for _ in 0..n_d1 {
@@ -282,7 +287,7 @@ pub fn generate(rng: &mut Rng, tier: Tier, cases: &mut Vec<Case>) {
     }
     // (iii) contracted unit grids
     for _ in 0..n_grid {
-        let w = 3 + rng.below(5) as usize;
+        let w = 4 + rng.below(5) as usize;
         let h = 2 + rng.below(4) as usize;
         let (s, t, es) = grid(rng, w, h);
         cases.push(case_from("grid", s, t, &es));
